@@ -472,7 +472,8 @@ Section Proofs.
     assert (HN' : calls_nonempty rest).
     { intros envs Hin. apply HN. right. exact Hin. }
     destruct op as [envs|].
-    - destruct (call open c st envs) as [[st' cr] l] eqn:EC. simpl in H. destruct H as [H|H].
+    - remember (if c_scion c && negb (in_interleaved_mode c st) then reset_state st else st) as st0.
+      destruct (call open c st0 envs) as [[st' cr] l] eqn:EC. simpl in H. destruct H as [H|H].
       + inversion H; subst. apply call_offset_genuine in EC.
         * destruct EC as (stk & e & g & h & i & A & B & C & D & E).
           exists envs, stk, e, g, h, i. split; [left; reflexivity|]. split; [exact A|]. split; [exact B|].
